@@ -154,6 +154,50 @@ def o_image(a):
     return outside == 0 and err <= 2. and cum <= 3., dict(outside=outside, max_abs_count_err=err, max_cumulative_count_err=cum, empty_pixel_count=float(occ[0, nx - 1]))
 
 
+def o_imggen(a):
+    """the sampler regenerated from the source (Gen/ImgGen.lean, run on Float by the driver) against the real xFITSImage on the same uniforms:
+    the cumulative table, the pixel of every event, the coordinates after the in-pixel randomisation"""
+    from common import Driver, f2b, b2f
+    from ixpeobssim.srcmodel.img import xFITSImage
+    g = numpy.random.default_rng(a['seed'])
+    ny, nx = a['shape']
+    data = g.uniform(0.1, 1., (ny, nx))
+    data[g.integers(0, ny), g.integers(0, nx)] = 0.          # an empty pixel
+    n = a['n']
+    u = g.permutation(strat(n, g))
+    u[:ny * nx] = 0.                                          # filled below with values exactly on the nodes of the cumulative table
+    r1, r2 = g.uniform(0., 1., n), g.uniform(0., 1., n)
+    with scratch() as d:
+        path = os.path.join(d, 'img.fits')
+        make_image(path, data, a['ra'], a['dec'], pix_arcsec=a['pix'][0], pix_y_arcsec=a['pix'][1])
+        img = xFITSImage(path)
+        stored = numpy.array(img.data, dtype=float)
+        u[:ny * nx] = img.cdf                                 # exactly on a node: the pixel that ends there (side left)
+        tap = rngtap.Tap(); tap.feed(u, r1, r2) if a['randomize'] else tap.feed(u)
+        with rngtap.intercept(tap):
+            ra, dec = img.rvs_coordinates(n, randomize=a['randomize'])
+        c1, c2 = float(img.primary_hdu.header['CDELT1']), float(img.primary_hdu.header['CDELT2'])
+        flat = [f2b(float(x)) for x in stored.ravel()]
+        ev = []
+        for i in range(n):
+            ev += [f2b(float(u[i])), f2b(float(r1[i])), f2b(float(r2[i]))]
+        drv = Driver()
+        drv.ask('imgrvs %d %d %d %d %d %s %d %s' % (nx, 1 if a['randomize'] else 0, f2b(c1), f2b(c2), len(flat), ' '.join(map(str, flat)), len(ev), ' '.join(map(str, ev))))
+        rep = [b2f(x) for x in drv.run()[0].split()]
+        cdf_gen, rows = numpy.array(rep[:ny * nx]), numpy.array(rep[ny * nx:]).reshape(n, 4)
+        world = img.wcs.wcs_pix2world(numpy.vstack((rows[:, 0], rows[:, 1])).transpose(), 0)
+        cdf_real = numpy.array(img.cdf, dtype=float)
+    bad = []
+    if cdf_gen.shape != cdf_real.shape or numpy.abs(cdf_gen - cdf_real).max() > 1e-12:
+        bad.append('cumulative table differs by %.3g' % float(numpy.abs(cdf_gen - cdf_real).max()))
+    dra, ddec = numpy.abs(world[:, 0] + rows[:, 2] - ra), numpy.abs(world[:, 1] + rows[:, 3] - dec)
+    k = int(numpy.argmax(dra + ddec))
+    if dra.max() > 1e-9 or ddec.max() > 1e-9:
+        bad.append('event %d (u = %r): generated (col %d, row %d) + (%.3g, %.3g) gives (%.9f, %.9f), the package (%.9f, %.9f)' % (
+            k, float(u[k]), rows[k, 0], rows[k, 1], rows[k, 2], rows[k, 3], world[k, 0] + rows[k, 2], world[k, 1] + rows[k, 3], ra[k], dec[k]))
+    return not bad, dict(violated=bad, events=n, max_dra=float(dra.max()), max_ddec=float(ddec.max()))
+
+
 def o_map(a):
     """pixels lying wholly inside the shape receive events in proportion to the intensity map the same object reports"""
     from ixpeobssim.srcmodel.roi import xUniformDisk, xUniformAnnulus
@@ -326,7 +370,7 @@ def o_mctruth(a):
     return not bad and p.sum() > 100 and dmask.sum() > 100, dict(violated=bad, point_events=int(p.sum()), disk_events=int(dmask.sum()))
 
 
-ORACLES = dict(digitize=o_digitize, mctruth=o_mctruth, disk=o_disk, annulus=o_annulus, point=o_point, gauss=o_gauss, image=o_image, map=o_map, imgmap=o_imgmap)
+ORACLES = dict(digitize=o_digitize, mctruth=o_mctruth, disk=o_disk, annulus=o_annulus, point=o_point, gauss=o_gauss, image=o_image, map=o_map, imgmap=o_imgmap, imggen=o_imggen)
 
 
 def run_oracle(chk, name, a, nontrivial=True):
@@ -371,6 +415,8 @@ def explore(chk, budget=1):
     run_oracle(chk, 'image', dict(shape=(128, 160) if quick else (256, 256), profile='core', ra=float(g.uniform(5, 355)), dec=float(g.uniform(-60, 60)), seed=int(g.integers(1, 10 ** 6))))
     for shape, pix in ([((6, 8), (2., 8.)), ((8, 6), (9., 3.))] if quick else [((6, 8), (2., 8.)), ((8, 6), (9., 3.)), ((7, 7), (4., 5.)), ((5, 9), (12., 2.))]):
         run_oracle(chk, 'image', dict(shape=shape, pix=pix, randomize=True, ra=float(g.uniform(5, 355)), dec=float(g.uniform(-60, 60)), seed=int(g.integers(1, 10 ** 6))))
+    for shape, pix, rnd in ([((4, 7), (6., 6.), True), ((6, 3), (3., 9.), False)] if quick else [((4, 7), (6., 6.), True), ((6, 3), (3., 9.), False), ((5, 5), (8., 2.), True), ((9, 2), (4., 4.), True)]):
+        run_oracle(chk, 'imggen', dict(shape=shape, pix=pix, randomize=rnd, n=1500, ra=float(g.uniform(5, 355)), dec=float(g.uniform(-60, 60)), seed=int(g.integers(1, 10 ** 6))))
     for store in ('uint16', 'scaled'):
         run_oracle(chk, 'image', dict(shape=(6, 7), store=store, ra=float(g.uniform(5, 355)), dec=float(g.uniform(-60, 60)), seed=int(g.integers(1, 10 ** 6))))
     for shape in ([(7, 7), (5, 9), (9, 5)] if quick else [(7, 7), (5, 9), (9, 5), (12, 4), (3, 11), (16, 16)]):
@@ -383,7 +429,7 @@ def main(chk):
                 'Gaussian covariance and sample moments in the tangent plane; image-based sources on square and non-square images (pixel occupancy ∝ value, empty pixel stays empty); '
                 'interior pixels against build_intensity_map of the same object. non-trivial = |dec| > 30°, rmin/rmax > 0.3, non-square image')
     chk.assumptions = TRUSTED
-    chk.lean(['IxpeVerif.Props.C16', 'IxpeVerif.Props.Audit.C16'], GEN)
+    chk.lean(['IxpeVerif.Props.C16', 'IxpeVerif.Props.C16Gen', 'IxpeVerif.Props.Audit.C16'], GEN + ['img_build_cdf', 'img_rvs_coordinates'])
     corr_gen.run(chk, GEN, n=200 if chk.tier == 'quick' else 3000, tag='C16', rtol=1e-10, atol=1e-10)
     explore(chk)
     return chk.finish(level='proof', trusted=TRUSTED, search=lambda k: explore(chk, 4))
